@@ -281,7 +281,7 @@ def gen_case(rng, maxlen, stream):
                 ops.append(["reloadgroups"])
                 sh.groups = dict(g)
             elif r2 < 0.5:
-                k = _kerning(rng, sh.groups, invalid)
+                k = {} if rng.random() < 0.25 else _kerning(rng, sh.groups, invalid)
                 ops.append(["extkerning", _klist(k, True)])
                 sh.disk_kerning = dict(k)
                 ops.append(["reloadkerning"])
@@ -417,6 +417,7 @@ class World(object):
         self.tmp = None
         self.path = None
         self.n = 0
+        self.nops = 0
 
     def close(self):
         if self.tmp is not None:
@@ -477,23 +478,62 @@ class World(object):
             self.ext_kerning(op[1])
             return ok
         f = self.font
+        # the same edit in the different spellings the dict API offers (the model sees one operation): every one of
+        # them must announce the change, or the derived tables go stale
+        v = self.nops % 4
+        self.nops += 1
         if k == "gset":
-            f.groups[op[1]] = list(op[2])
+            g = f.groups
+            if op[1] not in g and v == 1:
+                g.setdefault(op[1], list(op[2]))
+            else:
+                g[op[1]] = list(op[2])
             return ok
         if k == "gdel":
-            del f.groups[op[1]]
+            g = f.groups
+            if op[1] in g and v == 1:
+                g.pop(op[1])
+            elif op[1] in g and v == 2:
+                g.pop(op[1], None)
+            elif op[1] in g and v == 3:
+                g.pop(op[1], ["fallback"])
+            else:
+                del g[op[1]]
             return ok
         if k == "gclear":
-            f.groups.clear()
+            g = f.groups
+            if v == 1 and len(g):
+                while len(g):
+                    g.popitem()
+            else:
+                g.clear()
             return ok
         if k == "gupdate":
-            f.groups.update(dict((n, list(ms)) for n, ms in op[1]))
+            g = f.groups
+            d = dict((n, list(ms)) for n, ms in op[1])
+            if v == 1:
+                g |= d
+            else:
+                g.update(d)
             return ok
         if k == "kset":
-            f.kerning[(op[1], op[2])] = op[3]
+            kn = f.kerning
+            if (op[1], op[2]) not in kn and v == 1:
+                kn.setdefault((op[1], op[2]), op[3])
+            else:
+                kn[(op[1], op[2])] = op[3]
             return ok
         if k == "kdel":
-            del f.kerning[(op[1], op[2])]
+            kn = f.kerning
+            key = (op[1], op[2])
+            if key in kn and v == 1:
+                kn.pop(key)
+            elif key in kn and v == 2:
+                kn.pop(key, None)
+            elif key in kn and v == 3:
+                kn.pop(key, 5)
+            else:
+                del kn[key]
             return ok
         if k == "kclear":
             f.kerning.clear()
